@@ -170,6 +170,14 @@ func init() {
 	if os.Getenv("HR_VERIF_SERVE") == "" {
 		return
 	}
+	// a smaller goroutine stack limit than the default 1 GB: the depth of a recursion is then reached with inputs of megabytes instead of hundreds of
+	// megabytes (used to reproduce the stack overflow of a very long recipe chain under a huge --maxdepth at a fraction of the size)
+	if v := os.Getenv("HR_VERIF_MAXSTACK"); v != "" {
+		var n int
+		if _, err := fmt.Sscanf(v, "%d", &n); err == nil && n > 0 {
+			debug.SetMaxStack(n)
+		}
+	}
 	in := bufio.NewReaderSize(os.Stdin, 1<<20)
 	out := bufio.NewWriter(os.Stdout)
 	for {
